@@ -137,8 +137,14 @@ class DesignElab(Elaboratable):
         self.info = info or parse(design)
         info = self.info
         self.methods = {}
+        self.callobj = {}       # design["plural"]: calls go through a one-element `Methods` collection (Methods.__call__)
         for name, b in info.bodies.items():
             if b.kind == "m":
+                if design.get("plural"):
+                    from transactron.core.method import Methods
+                    ms = Methods(1, name=name, i=[("a", 1)] if b.i else [], o=[("o", 1)] if b.o else [])
+                    self.methods[name], self.callobj[name] = ms[0], ms
+                    continue
                 self.methods[name] = Method(name=name, i=[("a", 1)] if b.i else [], o=[("o", 1)] if b.o else [])
         for name, target in info.aliases.items():
             t = info.bodies[resolve(info, target)]
@@ -168,7 +174,7 @@ class DesignElab(Elaboratable):
                     kw = {}
                     if len(meth.data_in.as_value()):
                         kw["a"] = self.inp[s.arg_in] if s.arg == "in" else C(int(s.arg or 0), 1)
-                    res = meth(m, enable_call=en, **kw)
+                    res = self.callobj.get(s.callee, meth)(m, enable_call=en, **kw)
                     m.d.comb += self.site_wit[k].eq(1)
                     if len(meth.data_out.as_value()):
                         r = Signal(name=f"res{k}")
